@@ -18,8 +18,8 @@ RULE = ('Zone layouts and programs are generated together (the generator reads t
         'stretches of one zone, a fill ending at end / end+1, a zone-relative origin, an include while a non-GLOBAL '
         'zone is selected; every fault-injected zone declaration is non-trivial. Distinct = SHA-1 of the case JSON.')
 ASSUMPTIONS = [
-    '.org targets stay inside the named zone and inside GLOBAL (an origin outside, with no byte placed, is not decided '
-    'by the property)',
+    'an origin outside its named zone is decided only by what follows it: a byte placed from there must be rejected; '
+    'with no byte placed the origin alone is not decided by the property',
     'includes are not placed inside muted or conditionally excluded regions (that interaction is C08/C17)',
     'zones predefined in the configuration are generated inside GLOBAL',
 ]
